@@ -161,6 +161,22 @@ MsgBytes(S, T, d, lay) ==
       ordered == IF lay.rev THEN Reverse(sel) ELSE sel
       body == FlattenSeq([ i \in DOMAIN ordered |-> FieldBytes(S, ordered[i], d, lay) ])
   IN (IF lay.unknown THEN WTag(1999, 0) \o <<1>> \o LenDelim(1998, <<1, 2, 3>>) ELSE <<>>) \o body
+
+\* ---------------------------------------------------------------- canonical re-encoding of a decoded tree
+\* fields in number order, repeated scalars unpacked, map entries in some order, canonical tags/lengths
+RECURSIVE EncodeTree(_,_,_)
+EncVal(S, kind, type, num, v) ==
+  IF kind = "message" THEN LenDelim(num, EncodeTree(S, type, v))
+  ELSE LET w == WireOf(kind, type) IN IF w = 2 THEN LenDelim(num, v) ELSE WTag(num, w) \o v
+EncodeTree(S, T, t) ==
+  LET fs == S[T]  fieldOf(n) == fs[CHOOSE i \in DOMAIN fs : fs[i].num = n] IN
+  FlattenSeq([ j \in DOMAIN t.fields |->
+    LET n == t.fields[j].num  f == fieldOf(n)  v == t.fields[j].vals IN
+    IF f.kind = "map" THEN
+      FlattenSeq([ x \in DOMAIN SetToSeq(v) |-> LET e == SetToSeq(v)[x] IN
+         LenDelim(n, (IF e.k = <<>> THEN <<>> ELSE EncVal(S, "scalar", f.key, 1, e.k[1]))
+                     \o (IF e.v = <<>> THEN <<>> ELSE EncVal(S, f.value_kind, f.value, 2, e.v[1]))) ])
+    ELSE FlattenSeq([ x \in DOMAIN v |-> EncVal(S, f.kind, f.type, n, v[x]) ]) ])
 \* only one field set
 OneFieldBytes(S, T, i, d, lay) == FieldBytes(S, S[T][i], d, lay)
 =============================================================================
